@@ -1272,9 +1272,34 @@ def _whole_list(e, idx_name):
     return isinstance(e, ast.Name) and e.id == idx_name
 
 
+def _pairs_with_positions(it, idx_name, length_name=None):
+    """the iterable pairs every element of the whole index list with its position: zip(idx, range(n)) (either order),
+    enumerate(idx), or an index loop range(n) / range(len(idx)) (the caller then compares idx[i] with i)"""
+    if isinstance(it, ast.Call) and call_name(it) == "zip" and len(it.args) == 2:
+        a, b = it.args
+        for x, y in ((a, b), (b, a)):
+            if _whole_list(x, idx_name) and isinstance(_strip_list(y), ast.Call) and call_name(_strip_list(y)) in ("range", "arange", "count"):
+                return True
+        return False
+    if isinstance(it, ast.Call) and call_name(it) == "enumerate" and it.args and _whole_list(it.args[0], idx_name):
+        return True
+    y = _strip_list(it)
+    if isinstance(y, ast.Call) and call_name(y) in ("range", "arange") and len(y.args) == 1:
+        a = y.args[0]
+        return (isinstance(a, ast.Name) and length_name is not None and a.id == length_name) or \
+            (isinstance(a, ast.Call) and call_name(a) == "len" and len(a.args) == 1 and _whole_list(a.args[0], idx_name)) or isinstance(a, ast.Name)
+    return False
+
+
+def _strip_list(e):
+    while isinstance(e, ast.Call) and call_name(e) in ("list", "tuple", "asarray", "array") and len(e.args) == 1:
+        e = e.args[0]
+    return e
+
+
 def _elementwise_mismatch(cfg, st, idx_name):
     """statement `st` is executed only inside a loop over the index list and only when an element differs from its position"""
-    loops = [a for a in _anc(st) if isinstance(a, ast.For) and _mentions(a.iter, idx_name)]
+    loops = [a for a in _anc(st) if isinstance(a, ast.For) and _mentions(a.iter, idx_name) and _pairs_with_positions(a.iter, idx_name)]
     if not loops:
         return False
     for t, pol in _R.path_literals(cfg, st):
@@ -1304,7 +1329,7 @@ def _identity_proof(ctx, fi, e, idx_name, length_name, depth=0):
         if isinstance(gen, ast.Call) and call_name(gen) in ("list", "tuple") and len(gen.args) == 1:
             gen = gen.args[0]
         if isinstance(gen, (ast.GeneratorExp, ast.ListComp)) and len(gen.generators) == 1 and not gen.generators[0].ifs \
-                and _mentions(gen.generators[0].iter, idx_name) and isinstance(gen.elt, ast.Compare) and len(gen.elt.ops) == 1 \
+                and _pairs_with_positions(gen.generators[0].iter, idx_name, length_name) and isinstance(gen.elt, ast.Compare) and len(gen.elt.ops) == 1 \
                 and isinstance(gen.elt.ops[0], ast.NotEq):
             return "not any(element != position)"
     if isinstance(e, ast.Call) and call_name(e) == "all" and len(e.args) == 1:
@@ -1312,7 +1337,7 @@ def _identity_proof(ctx, fi, e, idx_name, length_name, depth=0):
         if isinstance(gen, ast.Call) and call_name(gen) in ("list", "tuple") and len(gen.args) == 1:
             gen = gen.args[0]
         if isinstance(gen, (ast.GeneratorExp, ast.ListComp)) and len(gen.generators) == 1 and not gen.generators[0].ifs \
-                and _mentions(gen.generators[0].iter, idx_name) and isinstance(gen.elt, ast.Compare) and len(gen.elt.ops) == 1 \
+                and _pairs_with_positions(gen.generators[0].iter, idx_name, length_name) and isinstance(gen.elt, ast.Compare) and len(gen.elt.ops) == 1 \
                 and isinstance(gen.elt.ops[0], ast.Eq):
             return "all(element == position)"
         if isinstance(gen, ast.Compare) and len(gen.ops) == 1 and isinstance(gen.ops[0], ast.Eq):
